@@ -5,7 +5,7 @@
    arbitrary list of work-connection arrivals, user connections, timers and session teardowns; the
    oracle [cf_dead] says which connections the peer has reset before the server writes on them.
    The hand-off channels of the group / vhost accept paths are the second model ([h_exec]). *)
-From FRP Require Import Model.Pool Proofs.PoolProofs.
+From FRP Require Import Model.Pool Proofs.PoolProofs gen.GenPoolClamp gen.GenSendLoop.
 Open Scope Z_scope.
 
 (* pooled connections never exceed the session's capacity poolCount + 10, in every reachable state *)
@@ -156,7 +156,7 @@ Print Assumptions C11_late_workconn_closed_not_parked.
 Definition ex_cfg : pcfg :=
   {| cf_client_pc := 7; cf_server_max := 5;
      cf_reqs := [RWork; RWork; RUser (hx "7061") (hx "0a000001") 40000 false; RTeardown; RWork];
-     cf_dead := fun _ => false |}.
+     cf_dead := fun _ => false; cf_qcap := 100; cf_wfail := fun _ => false; cf_sl_survives := true |}.
 Definition ex_sched : list nat := List.concat (map (fun t => repeat t 8) [0; 1; 2; 3; 4]%nat).
 Example C11_example :
   let s := pl_exec ex_cfg ex_sched in
@@ -218,3 +218,64 @@ Example C11_example_visitor :
   is_fate s 0%nat = IHandled /\ is_fate s 1%nat = IHandled /\ is_fate s 2%nat = IHandled /\
   is_fate s 5%nat = IClosed /\ is_thr s 4%nat = Some ILEnd.
 Proof. vm_compute. repeat split; reflexivity. Qed.
+
+
+(* ---- the send path of GetWorkConn: Dispatcher.Send may block (queue of 100, doneCh), and the user's
+        timer is created only after it has returned ---- *)
+
+(* the send loop of a live session never stops — in particular not on a failed write; it ends with doneCh *)
+Theorem C11_sendloop_alive_until_done : forall cfg sched k,
+  cf_sl_survives cfg = true -> start_fits cfg -> pl_req_of cfg k = Some RSendLoop ->
+  let s := pl_exec cfg sched in ps_thr s k = TS SLRun \/ ps_ddone s = true.
+Proof. exact sendloop_alive_until_done. Qed.
+Print Assumptions C11_sendloop_alive_until_done.
+
+(* every schedule, every write-failure pattern [cf_wfail]: a user standing in Send (before its wait and its
+   timer, or for the replacement request) has left it after one turn of the send loop and one of its own;
+   together with C11_user_conn_closed_on_timeout and C11_user_open_is_being_served: bridged or closed
+   within the bound, never parked in front of the timer *)
+Theorem C11_send_returns_after_sendloop_turn : forall cfg sched u k,
+  cf_sl_survives cfg = true -> start_fits cfg -> 0 < cf_qcap cfg -> pl_req_of cfg k = Some RSendLoop ->
+  let s := pl_exec cfg sched in
+  let s2 := pl_step cfg (pl_step cfg s k) u in
+  (forall i, ps_thr s u = TU (UReq i) ->
+     ps_thr s2 u = TU (UWait i) \/ (ps_thr s2 u = TU UDone /\ ps_user s2 u = UClosed)) /\
+  (forall i c, ps_thr s u = TU (URepl i c) -> ps_thr s2 u = TU (UWrite i c)).
+Proof. exact send_returns_after_sendloop_turn. Qed.
+Print Assumptions C11_send_returns_after_sendloop_turn.
+
+(* reflective, over today's translator output (unit T11send, pkg/msg/handler.go + server/control.go): the
+   hypotheses of the two theorems above are what the source says — the sendCh clause of sendLoop cannot leave
+   the loop, Send selects on doneCh and the queue, the queue has room, doneCh is closed by the read loop
+   only, and GetWorkConn creates its timer after the Send *)
+Theorem C11_sendloop_today :
+  gen_sendloop_unknown = false /\ gen_sendloop_survives_write_error = true /\
+  gen_send_selects_done_or_queue = true /\ 0 < gen_sendch_cap /\
+  gen_done_closers = ["readLoop"%string] /\ gen_timer_created_after_send = true.
+Proof. vm_compute. repeat split; reflexivity. Qed.
+Print Assumptions C11_sendloop_today.
+
+(* regression witness (seeded change "send loop returns on a write error"): queue of 2, every write fails,
+   the loop dies on the first one; users 1..3 fill the queue and wait; user 4 stands in Send for ever — its
+   timer (thread 5) cannot fire because it does not exist yet *)
+Theorem C11_sendloop_dying_refuted :
+  let cfg := {| cf_client_pc := 0; cf_server_max := 5;
+                cf_reqs := [RSendLoop; RUser [] [] 1 false; RUser [] [] 2 false; RUser [] [] 3 false;
+                            RUser [] [] 4 false; RTimeout 4];
+                cf_dead := fun _ => false; cf_qcap := 2; cf_wfail := fun _ => true; cf_sl_survives := false |} in
+  let s := pl_exec cfg ([1; 1; 0; 2; 2; 3; 3; 4; 4] ++ List.concat (repeat [0; 4; 5] 20))%nat in
+  ps_thr s 0%nat = TS SLEnd /\ ps_ddone s = false /\ ps_thr s 4%nat = TU (UReq 0) /\ ps_user s 4%nat = UOpen.
+Proof. vm_compute. repeat split; reflexivity. Qed.
+Print Assumptions C11_sendloop_dying_refuted.
+
+(* ---- NewControl's integer code as regenerated from today's source (translator unit T11send/clamp: every
+        statement before the Control literal, any local names), for EVERY client value and EVERY server
+        maximum, zero and negative included ---- *)
+Theorem C11_generated_pool_code_bounded :
+  gen11_unknown = false /\ gen11_start_bound_is_stored = true /\
+  forall c m, gen11_stored c m = pl_pool_count c m /\
+              gen11_stored c m = Z.max 0 (Z.min c m) /\
+              gen11_chan_cap c m = pl_cap (pl_pool_count c m) /\
+              gen11_chan_cap c m = Z.max 0 (Z.min c m) + 10.
+Proof. exact generated_pool_code_bounded. Qed.
+Print Assumptions C11_generated_pool_code_bounded.
